@@ -94,7 +94,8 @@ class Universe:
     def dict_line(self):
         out = []
         for ci, (fields, ren) in enumerate(self.spec):
-            out.append(",".join(f"{n}>{ren.get(n, n)}=" + (f"n{self.defaults[(ci, n)]}" if k == "n" else f"{k}{c}") for n, k, c in fields))
+            out.append(",".join([f"{n}>{ren.get(n, n)}=" + (f"n{self.defaults[(ci, n)]}" if k == "n" else f"{k}{c}") for n, k, c in fields]
+                                + (["arr>arr=a", "brr>brr=a"] if ci in self.leaflike else [])))     # arrays of dynamic shape: no default
         return "univ " + ";".join(out)
 
     def pyname(self, ci, xo_name):
@@ -607,6 +608,9 @@ def venc(U, ci, val):
             out.append("_")
         else:
             out.append(venc(U, c, v))
+    if ci in U.leaflike:
+        for n in ("arr", "brr"):
+            out.append("a" + ("/".join(str(int(x)) for x in val[n]) or "-"))
     return "(" + " ".join(out) + ")"
 
 
@@ -615,9 +619,11 @@ def canon_dict(d):
     if d is None:
         return "None"
     if isinstance(d, dict):
-        return "{" + ",".join(sorted(f"{k}:{canon_dict(v)}" for k, v in d.items() if k not in ("__class__", "arr", "brr"))) + "}"
+        return "{" + ",".join(sorted(f"{k}:{canon_dict(v)}" for k, v in d.items() if k != "__class__")) + "}"
     if hasattr(d, "_fields") and hasattr(d, "_buffer"):        # a bare xobject stored for a reference
-        return "{" + ",".join(sorted(f"{f.name}:{canon_dict(getattr(d, f.name))}" for f in d._fields if f.name not in ("arr", "brr"))) + "}"
+        return "{" + ",".join(sorted(f"{f.name}:{canon_dict(getattr(d, f.name))}" for f in d._fields)) + "}"
+    if hasattr(d, "__len__"):                                   # an array-valued field: a list of numbers
+        return "[" + ",".join(str(int(x)) for x in d) + "]"
     return str(int(d))
 
 
